@@ -351,6 +351,96 @@ def gen_twice(rng):
     return prog
 
 
+def gen_cascade(rng):
+    """several %push of forward labels whose widenings CASCADE over successive relaxation rounds, in ANY order of the
+    pushes (a later push may grow first and push an EARLIER push's target over the boundary): under the base layout the
+    target of the push that grows in round j+1 sits j bytes short of the boundary (255, or 65535 after a common first
+    round), so it crosses only once j other pushes have grown.  A referenced label follows every push: it has to be laid
+    out again whenever ANY push before it grows, in whichever round.  In the 65535 variant every push grows twice
+    (1 -> 2 all together, then 2 -> 3 one per round): more rounds than variable-sized pushes."""
+    m = rng.choice([2, 2, 3, 4])
+    big = rng.random() < 0.2
+    B, w0 = (65535, 3) if big else (255, 2)      # base size of an auto push (opcode + immediate) when the cascade starts
+    order = list(range(m))
+    rng.shuffle(order)                           # order[j]: the push that grows in round j+1 of the cascade
+    prog = filler(rng, rng.choice([0, 0, 1, 2]))
+    for i in range(m):
+        prog.append(("apush", X(rng, [f"t{i}"])))
+        prog += [("label", f"m{i}"), ("op", "jumpdest")]
+        if rng.random() < 0.3:
+            prog += filler(rng, rng.choice([1, 2]))
+    used = sum(w0 if s_[0] == "apush" else 0 if s_[0] == "label" else 1 for s_ in prog)
+    jitter = rng.choice([0, 0, 0, 0, -1, 1])
+    first = B + 1 - (m - 1) + jitter               # base offset of the target that crosses last
+    prog += filler(rng, max(0, first - used))
+    for j in range(m - 1, 0, -1):
+        prog += [("label", f"t{order[j]}"), ("op", "jumpdest")]
+    prog += filler(rng, rng.choice([0, 0, 1, 3]))
+    prog += [("label", f"t{order[0]}"), ("op", "jumpdest")]
+    for i in range(m):
+        if rng.random() < 0.8:
+            prog.append(("push", 3, X(rng, [f"m{i}"])))
+    return prog
+
+
+def gen_selfshift(rng):
+    """a %push whose operand combines a constant with a label the push shifts ITSELF (the label stands right behind it):
+    the constant is chosen so that every widening moves the value over the next byte-length boundary — the push grows
+    1 -> 2 -> 3 bytes in successive rounds although it is the only variable-sized push (more rounds than pushes)"""
+    pre = rng.choice([0, 0, 1, 3])
+    gap = rng.choice([0, 0, 1, 2])
+    l0 = pre + 2 + gap                              # the label while the push is counted with a one-byte immediate
+    d = rng.choice([0, 0, 0, -1, 1, 2, -2])
+    if rng.random() < 0.6:
+        k = 65536 - (l0 + 1) + d                    # l0 + k = 65535 (two bytes), l0 + 1 + k = 65536 (three)
+        e = rng.choice([["lbl", "+", lit(rng, k)], [lit(rng, k), "+", "lbl"], ["(", "lbl", ")", "+", lit(rng, k)]])
+    else:
+        mul = (65536 + l0) // (l0 + 1) + d          # l0 * mul < 65536 <= (l0 + 1) * mul (about)
+        e = rng.choice([["lbl", "*", lit(rng, max(1, mul))], [lit(rng, max(1, mul)), "*", "lbl"]])
+    prog = filler(rng, pre) + [("apush", X(rng, e))] + filler(rng, gap) + [("label", "lbl"), ("op", "jumpdest")]
+    if rng.random() < 0.5:
+        prog += filler(rng, rng.randrange(0, 3)) + [("label", "after"), ("op", "jumpdest"), ("push", 3, X(rng, ["after"]))]
+    if rng.random() < 0.3:
+        prog = [("mdef", "far", ["off"], [("apush", X(rng, ["tg", "+", "$off"])), ("label", "tg"), ("op", "jumpdest")]),
+                ("minv", "far", [X(rng, [lit(rng, 65536 - 3 + d)])])] + prog
+    return prog
+
+
+def gen_nested_frames(rng):
+    """expression macros three deep whose frames must stay apart: an ARGUMENT that is itself an invocation forwarding the
+    caller's parameter (`f(h($p), 1)`, callee `f` having a parameter of the same name `p` bound to something else), and
+    — as faults — a body that reads a variable it does not declare while an ENCLOSING invocation binds that name, or an
+    invocation that supplies too few arguments for a parameter the caller also has"""
+    kind = rng.choice(["arg_call", "arg_call", "arg_call_noparam", "leak", "leak_deep", "few_args"])
+    a, b, c = rng.sample(range(2, 30), 3)
+    if kind == "arg_call":
+        prog = [("edef", "h", ["v"], X(rng, ["$v", "*", "2"])),
+                ("edef", "f", ["x", "p"], X(rng, rng.choice([["$x", "+", "$p"], ["$x", "*", "100", "-", "$p"]]))),
+                ("edef", "g", ["p"], X(rng, ["f", "(", "h", "(", "$p", ")", ",", lit(rng, b), ")"]))]
+        use = [("push", 32, X(rng, ["g", "(", lit(rng, a), ")"]))]
+    elif kind == "arg_call_noparam":
+        prog = [("edef", "h", ["v"], X(rng, ["$v", "+", lit(rng, c)])),
+                ("edef", "f", ["x"], X(rng, ["$x", "+", "1"])),
+                ("edef", "g", ["p"], X(rng, rng.choice([["f", "(", "h", "(", "$p", ")", ")"], ["f", "(", "h", "(", "h", "(", "$p", ")", ")", ")"]])))]
+        use = [("push", 32, X(rng, ["g", "(", lit(rng, a), ")"]))]
+    elif kind == "leak":
+        prog = [("edef", "inner", [], X(rng, ["$x", "+", "1"])),
+                ("edef", "outer", ["x"], X(rng, ["inner", "(", ")", "*", "2"]))]
+        use = [("push", 2, X(rng, ["outer", "(", lit(rng, a), ")"]))]
+    elif kind == "leak_deep":
+        prog = [("edef", "inner", ["q"], X(rng, ["$x", "+", "$q"])),
+                ("edef", "mid", ["y"], X(rng, ["inner", "(", "$y", ")"])),
+                ("edef", "outer", ["x"], X(rng, ["mid", "(", "$x", "+", "1", ")", "+", "fw"]))]
+        use = [("push", 2, X(rng, ["outer", "(", lit(rng, a), ")"])), ("label", "fw"), ("op", "jumpdest")]
+    else:
+        prog = [("edef", "inner", ["x"], X(rng, ["$x", "+", "1"])),
+                ("edef", "outer", ["x"], X(rng, ["inner", "(", ")", "*", "2"]))]
+        use = [("push", 2, X(rng, ["outer", "(", lit(rng, a), ")"]))]
+    if rng.random() < 0.4:
+        rng.shuffle(prog)
+    return (prog + use) if rng.random() < 0.6 else (use + prog)
+
+
 def gen_macros(rng):
     """instruction macros: parameters, local labels in compound expressions, forwarding through nested
     invocations, local label as argument, clashes between local / outer / argument names, definition after use"""
